@@ -806,6 +806,105 @@ example :
     let f := run false 0 [[0x78], []] init [Ev.piece [0x61], Ev.piece [0x62], Ev.eos]
     f.out = [] ∧ f.done = some .stop ∧ f.numPredicted = 1 ∧ f.cause = some (.stopString []) := by decide
 
+/-! ### 5c-4. the reslice of the cache is in range on EVERY reachable state -/
+
+/-- **`seq.cache.Inputs[:tokenLen]` never panics and never extends the cache, along every history.**  For every
+    script, limit, list of non-empty stops and prompt length: whenever the sequence is removed, the cache length the
+    model computes (`cacheLenRun`, compared exactly with `len(seq.cache.Inputs)` of both runners) is non-negative and at
+    most the number of inputs that have been submitted by then — the prompt and every sampled token but the last
+    (`promptLen + numPredicted − 1`) — with equality at EOS and at the limit.  The hypothesis of `cacheKeep_spec`
+    (every pending piece but the last has its input in the cache) is discharged here from the loop invariant
+    `pending.length ≤ numPredicted`. -/
+theorem cacheLen_in_range (pinned : Bool) (limit : Int) (stops : List Bytes) (promptLen : Nat)
+    (hne : ∀ t ∈ stops, t ≠ []) :
+    ∀ (evs : List Ev) (st : St), st.pending.length ≤ st.numPredicted → st.done = none → st.cause = none → ∀ n,
+      cacheLenRun pinned limit stops promptLen st evs = some n →
+      0 ≤ n ∧ n ≤ (promptLen : Int) + (run pinned limit stops st evs).numPredicted - 1 := by
+  intro evs
+  induction evs with
+  | nil =>
+    intro st _ _ _ n h
+    unfold cacheLenRun at h
+    unfold run
+    split at h
+    · rename_i hl
+      simp only [hl, and_self, if_true, finish_np]
+      injection h with h
+      omega
+    · cases h
+  | cons ev rest ih =>
+    intro st hinv hdone hcause n h
+    unfold cacheLenRun at h
+    unfold run
+    split at h
+    · rename_i hl
+      simp only [hl, and_self, if_true, finish_np]
+      injection h with h
+      omega
+    · rename_i hl
+      simp only [hl, if_false]
+      cases ev with
+      | eos =>
+        simp only [finish_np] at h ⊢
+        injection h with h
+        omega
+      | piece p =>
+        simp only at h ⊢
+        rcases stepPiece_cases pinned stops st p with ⟨s, hs, hst⟩ | ⟨_, _, hst⟩ | ⟨_, _, _, hst⟩
+        · -- a stop string ends the run
+          have hc : (stepPiece pinned stops st p).cause = some (.stopString s) := by rw [hst]; simp
+          have hd : (stepPiece pinned stops st p).done.isSome = true := by rw [hst]; simp
+          rw [hc] at h
+          simp only [hd, if_true]
+          rw [stepPiece_np]
+          injection h with h
+          obtain ⟨hmem, hocc⟩ := findStopV_some hs
+          obtain ⟨idx, hidx⟩ := hocc.indexOf
+          have hidx' : indexOf s (st.pending ++ [p]).flatten = some idx := hidx
+          have hlen : (st.pending ++ [p]).length ≤ (promptLen + st.numPredicted) + 1 := by
+            simp only [List.length_append, List.length_cons, List.length_nil]; omega
+          obtain ⟨_, _, _, h0, h1⟩ := cacheKeep_spec (st.pending ++ [p]) s (promptLen + st.numPredicted) idx
+            (hne s hmem) hidx' hlen
+          rw [h] at h0 h1
+          constructor
+          · exact h0
+          · have : ((promptLen + st.numPredicted : Nat) : Int) = (promptLen : Int) + (st.numPredicted : Int) := by
+              simp
+            omega
+        · -- held back: the run goes on
+          have hc : (stepPiece pinned stops st p).cause = none := by rw [hst]; exact hcause
+          have hd : (stepPiece pinned stops st p).done = none := by rw [hst]; exact hdone
+          rw [hc] at h
+          simp only [hd, Option.isSome_none, Bool.false_eq_true, if_false] at h ⊢
+          refine ih _ ?_ hd hc n h
+          rw [hst]
+          show (st.pending ++ [p]).length ≤ st.numPredicted + 1
+          simp only [List.length_append, List.length_cons, List.length_nil]; omega
+        · -- flushed: the run goes on
+          have hc : (stepPiece pinned stops st p).cause = none := by rw [hst, flush_cause]; exact hcause
+          have hd : (stepPiece pinned stops st p).done = none := by rw [hst, flush_done]; exact hdone
+          rw [hc] at h
+          simp only [hd, Option.isSome_none, Bool.false_eq_true, if_false] at h ⊢
+          refine ih _ ?_ hd hc n h
+          rw [hst, flush_pending]
+          simp
+
+/-- `cacheLen_in_range` from the start of a request -/
+theorem cache_reslice_in_range (pinned : Bool) (limit : Int) (stops : List Bytes) (promptLen : Nat)
+    (hne : ∀ t ∈ stops, t ≠ []) (evs : List Ev) (n : Int)
+    (h : cacheLenRun pinned limit stops promptLen init evs = some n) :
+    0 ≤ n ∧ n ≤ (promptLen : Int) + (run pinned limit stops init evs).numPredicted - 1 :=
+  cacheLen_in_range pinned limit stops promptLen hne evs init (by simp [init]) rfl rfl n h
+
+/-- non-vacuity: prompt of 3 inputs, pieces `"a" "b<" "|x"`, stop `"<|"`: at the stop 5 inputs are cached (prompt, `a`,
+    `b<`), the cut token `b<` and the unsubmitted `|x` are dropped: 4 remain; with EOS instead of the third piece the
+    cache holds all 5; at limit 2 it holds 4 (the second token was never submitted) -/
+example :
+    cacheLenRun false 0 [[0x3c, 0x7c]] 3 init [Ev.piece [0x61], Ev.piece [0x62, 0x3c], Ev.piece [0x7c, 0x78]] = some 4 ∧
+    cacheLenRun false 0 [[0x3c, 0x7c]] 3 init [Ev.piece [0x61], Ev.piece [0x62, 0x3c], Ev.eos] = some 5 ∧
+    cacheLenRun false 2 [[0x3c, 0x7c]] 3 init [Ev.piece [0x61], Ev.piece [0x62, 0x3c], Ev.piece [0x7c, 0x78]] = some 4 ∧
+    cacheLenRun false 0 [[0x3c, 0x7c]] 3 init [Ev.piece [0x61]] = none := by decide
+
 /-! ### 5d. one level up: the `completion` HTTP handler and the client -/
 
 /-- **What the client receives.**  For the handler's lines of any finished or cancelled run: the
